@@ -9,12 +9,16 @@
     receiver's reconstruction and checksum verification — succeeds and
     commits exactly the source bytes, for all contents and sizes below 2^40;
     and the update rule that decides whether the pipeline runs at all (C12).
+    [sync_session_correct] lifts this to a whole file list over a destination
+    state (each listed, requested file ends equal to its source, every other
+    path is untouched).
     What is NOT a theorem (correspondence only, see DESIGN.md): the mapping
     of source arguments to destination paths across the four arrangements and
-    the file-system effects; those are exercised end to end by the harness. *)
+    the walk that produces the list; those are exercised end to end by the
+    harness. *)
 From Coq Require Import ZArith List Bool.
 From RV Require Import Model.Bytes Model.Md4 Model.Checksum Model.Delta Model.Sender Model.Generator
-     Proofs.BytesProofs Proofs.SenderProofs Proofs.SearchInv Proofs.GeneratorProofs.
+     Proofs.BytesProofs Proofs.SenderProofs Proofs.SearchInv Proofs.GeneratorProofs Proofs.TreeSyncProofs.
 Import ListNotations.
 Open Scope Z_scope.
 
@@ -43,6 +47,26 @@ Theorem sync_sender_succeeds :
       send_one H seed chunk (fst (gen_sums H seed b)) (snd (gen_sums H seed b)) src = SOk h' toks tr.
 Proof. exact gen_then_send_total. Qed.
 
+(** A whole session: the file list is any list of (name, source content)
+    with distinct names, the destination any assignment of contents to paths,
+    [requested] the update rule's verdict per file (C12).  After the session
+    every requested file holds exactly the source's bytes; every other path —
+    listed but not requested, or not listed at all — is as it was.  The side
+    condition [file_ok] is the one of [sync_file_correct], taken against the
+    destination as it was before the session. *)
+Theorem sync_session_correct :
+  forall (H : list Z -> list Z) seed chunk (requested : fname -> bool),
+    (forall x, lenZ (H x) = 16) -> 1 <= chunk < 2147483648 ->
+    forall files d,
+      NoDup (map fst files) ->
+      (forall nc, In nc files -> requested (fst nc) = true -> file_ok H seed d nc) ->
+      (forall n c, In (n, c) files -> requested n = true -> sync_all H seed chunk requested files d n = Some c) /\
+      (forall n c, In (n, c) files -> requested n = false -> sync_all H seed chunk requested files d n = d n) /\
+      (forall m, ~ In m (map fst files) -> sync_all H seed chunk requested files d m = d m).
+Proof.
+  intros H seed chunk requested H16 Hc files d. exact (sync_all_correct H seed chunk requested H16 Hc files d).
+Qed.
+
 (** Non-vacuity, under MD4: a file that became empty over a non-empty copy
     (the case that used to crash the sender), and an edited copy. *)
 Example emptied_file : file_transfer md4 9 262144 [] (Some [1; 2; 3; 4; 5]) = Commit [].
@@ -55,3 +79,4 @@ Proof. vm_compute. reflexivity. Qed.
 
 Print Assumptions sync_file_correct.
 Print Assumptions sync_sender_succeeds.
+Print Assumptions sync_session_correct.
